@@ -12,6 +12,7 @@ import OapiVerif.Model.Merge
 import OapiVerif.Model.Union
 import OapiVerif.Model.DeepObject
 import OapiVerif.Model.GoJson
+import OapiVerif.Model.EnumClash
 /-!
 Line-protocol driver: one JSON object per line in, one per line out.
 `{"fn": <name>, ...}` ↦ `{"ok": <result>}` or `{"err": "bad-op"}` (never a default).
@@ -328,6 +329,22 @@ def enumNamesD (j : Json) : Except String Json := do
   | none => pure (Json.mkObj [("pairs", Json.null)])
   | some ps => pure (Json.mkObj [("pairs", Json.arr (ps.map fun p => Json.arr #[jcps p.1, jcps p.2]).toArray)])
 
+/-- `GenerateEnums`: which enums are prefixed and the constant names they emit. -/
+def enumFlagsD (j : Json) : Except String Json := do
+  let U ← getUni j
+  let types ← getCpsList j "types"
+  let ensJ ← (← j.getObjVal? "enums").getArr?
+  let ens ← ensJ.toList.mapM fun e => do
+    let ty ← getCps e "ty"
+    let names ← getCpsList e "names"
+    let pre ← e.getObjValAs? Bool "pre"
+    pure (EnumClash.E.mk ty names pre)
+  let fix ← j.getObjValAs? Bool "fix"
+  let uc := Names.ucFirst U
+  let out := if fix then EnumClash.resolveFix uc types ens else EnumClash.resolve uc types ens
+  pure (Json.mkObj [("enums", Json.arr (out.map fun e =>
+    Json.mkObj [("pre", Json.bool e.pre), ("vals", Json.arr ((e.vals uc).map jcps).toArray)]).toArray)])
+
 def goQuoteD (j : Json) : Except String Json := do
   let s ← getHex j "s"
   let q := Enums.quoteGo s
@@ -484,6 +501,7 @@ def dispatch (fn : String) (j : Json) : Except String Json :=
   | "unionTable" => unionTableD j
   | "merge" => mergeD j
   | "enumNames" => enumNamesD j
+  | "enumFlags" => enumFlagsD j
   | "goQuote" => goQuoteD j
   | "secDefs" => secDefsD j
   | "provider" => providerD j
